@@ -252,6 +252,8 @@ struct Explorer
         snprintf(sl->sig, sizeof sl->sig, "%s|teardown", sys.sysname());
       if (describe)
         *describe = run.describe();
+      if (verbose)
+        printf("state after the last step: %s\nteardown:\n", run.describe().c_str());
       run.finish();
     }
     if (ctx.diverged)
@@ -443,12 +445,15 @@ struct Explorer
       ops.push_back(op);
     }
     printf("replaying %s history of %d operations on fresh objects (%s)\n", sys.tag(), (int)ops.size(), sys.sysname());
-    std::string desc;
-    run_history(ops, full, off, 0, true, &desc);
-    if (!desc.empty())
-      printf("final state: %s\n", desc.c_str());
+    run_history(ops, full, off, 0, true);
     vr::flush();
-    return vr::S().viols.empty() ? 0 : 1;
+    if (!vr::S().viols.empty()) {
+      printf("REPLAY: the history violates the property (exit 1)\n");
+      fflush(stdout);
+      _exit(1);  // the objects of a failed history are abandoned on purpose: no leak report about them
+    }
+    printf("REPLAY: the history ran to its end, every comparison agreed with the reference\n");
+    return 0;
   }
 };
 
